@@ -52,7 +52,10 @@ def function_events(ctx):
             sv.add_sigsubj('sig%d' % j, 'key', 'subj%d' % j, SecurityIssues(bits))
         good = [int(s.subject[4:]) + 1 for s in sv.good_signatures]
         bad = [int(s.subject[4:]) + 1 for s in sv.bad_signatures]
-        ev.append({'k': 'result', 'entries': list(c), 'truthy': bool(sv), 'good': good, 'bad': bad})
+        # the object is a value: reading it again (lists, truth value, length) gives the same answers
+        good2 = [int(s.subject[4:]) + 1 for s in sv.good_signatures]
+        bad2 = [int(s.subject[4:]) + 1 for s in sv.bad_signatures]
+        ev.append({'k': 'result', 'entries': list(c), 'truthy': bool(sv), 'good': good, 'bad': bad, 'good2': good2, 'bad2': bad2, 'len': len(sv), 'truthy2': bool(sv)})
     return ev
 
 
